@@ -1614,6 +1614,16 @@ func runCase(t *testing.T, c Case) (v kit.Verdict) {
 	if h.maxTries > 0 {
 		v.Class("on-max-tries-called")
 	}
+	// every class at most once per case
+	seen := map[string]bool{}
+	uniq := v.Classes[:0]
+	for _, cl := range v.Classes {
+		if !seen[cl] {
+			seen[cl] = true
+			uniq = append(uniq, cl)
+		}
+	}
+	v.Classes = uniq
 	if os.Getenv("VERIF_DEBUG") != "" && v.Violation != "" {
 		fmt.Println(strings.Join(v.Trace, "\n"))
 	}
